@@ -17,6 +17,18 @@ NOTFOUND_KINDS = {"NOTFOUND", "HTTP_404", "SRC_MISSING", "NOTFOUND_MID"}
 FS_KINDS = {"EIO", "ENOSPC", "SHORT_WRITE", "EMFILE", "SRC_MISSING", "RENAME_EIO", "DISK_FULL"}
 
 
+def _scheme_of_fault(kind):
+    """which download stub fires this kind (None: any - file system faults hit whatever is being written)"""
+    if kind in ("HTTP_404", "HTTP_5XX", "CONN_ERR", "TIMEOUT", "HTTP_DROP_MID"):
+        return "https"
+    if kind == "SRC_MISSING":
+        return "file"
+    if kind in ("NOTFOUND", "ERR_BEFORE", "ERR_MID", "ERR_AFTER", "RET_FALSE_BEFORE", "RET_FALSE_MID", "ERR_STOPITER",
+                "NOTFOUND_MID", "INTERRUPT_MID"):
+        return "sim"
+    return None
+
+
 def is_cache_name(name):
     return name.startswith("cachefile_") and name.endswith("_cachefile")
 
@@ -316,11 +328,13 @@ class Oracle:
             if f.get("_key") is not None:
                 fail_keys.add(f["_key"])
             elif f.get("key") is not None:
-                fail_res.add(self._res(f["key"]))
+                fail_res.add((_scheme_of_fault(f["kind"]), self._res(f["key"])))
         fail_keys |= natural_missing
         if any(f["kind"] == "DISK_FULL" for f in failing):
             fail_keys |= set(k for k in req if k not in reg or k in rejected)
-        maybe_failed = {k for k in req if k in fail_keys or self._res(k) in fail_res}
+        # (the stub could not tell the key - unknown file naming - but it does know scheme and resource)
+        maybe_failed = {k for k in req if k in fail_keys or (w.keys[k]["scheme"], self._res(k)) in fail_res
+                        or (None, self._res(k)) in fail_res}
         zombies = obs.busy_before > 0 or obs.busy_after > 0
         strict = not fired and not natural_missing and not obs.crashed and not zombies
         if fired or natural_missing or obs.crashed:
